@@ -269,13 +269,30 @@ def g9(ctx: Ctx):
     for rel in ("coco/b09/elements.py", "coco/b09/visitors.py"):
         m = py.mod(rel)
         parents = {id(c): pp for pp in ast.walk(m.tree) for c in ast.iter_child_nodes(pp)}
+        def _slice_start(n_: ast.Subscript) -> Optional[int]:
+            """Constant start of a slice: a number, or len(<string constant>) through a class-level / module-level name."""
+            lo = n_.slice.lower
+            if isinstance(lo, ast.Constant) and isinstance(lo.value, int) and not isinstance(lo.value, bool):
+                return lo.value
+            if isinstance(lo, ast.Call) and call_name(lo) == "len" and len(lo.args) == 1:
+                a_ = lo.args[0]
+                if isinstance(a_, ast.Constant) and isinstance(a_.value, str):
+                    return len(a_.value)
+                nm_ = a_.attr if isinstance(a_, ast.Attribute) else a_.id if isinstance(a_, ast.Name) else None
+                if nm_ is not None:
+                    cands_ = [m.assigns.get(nm_)] + [st_.value for ci_ in m.classes.values() for st_ in ci_.node.body if isinstance(st_, ast.Assign) and len(st_.targets) == 1 and isinstance(st_.targets[0], ast.Name) and st_.targets[0].id == nm_]
+                    vals_ = {c_.value for c_ in cands_ if isinstance(c_, ast.Constant) and isinstance(c_.value, str)}
+                    if len(vals_) == 1:
+                        return len(next(iter(vals_)))
+            return None
+
         for n in ast.walk(m.tree):
-            if isinstance(n, ast.Subscript) and isinstance(n.slice, ast.Slice) and isinstance(n.slice.lower, ast.Constant) and isinstance(n.slice.lower.value, int) and n.slice.lower.value in (3, 4, 5):
+            if isinstance(n, ast.Subscript) and isinstance(n.slice, ast.Slice) and n.slice.lower is not None and _slice_start(n) in (3, 4, 5):
                 src = unparse(n.value)
                 if src.endswith("name()") or isinstance(n.value, ast.Name):
                     n_strip += 1
-                    ok = n.slice.lower.value == len("arr_") and n.slice.upper is None
-                    why = f"`{unparse(n)}` strips {n.slice.lower.value} characters, the array prefix `arr_` has 4"
+                    ok = _slice_start(n) == len("arr_") and n.slice.upper is None
+                    why = f"`{unparse(n)}` strips {_slice_start(n)} characters, the array prefix `arr_` has 4"
                     if n.slice.upper is not None:
                         why = f"`{unparse(n)}` also cuts the name after the prefix: the `$` of a two-character string array name is lost, so the string array is declared under the numeric array's identifier"
                     skey = f"{rel.split('/')[-1]}:{_func_at(m, n.lineno)}#{n_strip}"
